@@ -207,6 +207,9 @@ class IkeSaController:
                 logging.error(f'Problem sending message: {ex}')
             except KeyError as ex:
                 logging.error(f'Could not find socket with the appropriate source address: {str(ex)}')
+            except Exception as ex:
+                # a malformed datagram, an unknown peer, a kernel or a transmission error must not stop the daemon
+                logging.error(f'Error while processing an event. Ignoring it: {type(ex).__name__}: {ex}')
 
     def close(self):
         xfrm.Xfrm.flush_policies()
